@@ -101,12 +101,17 @@ def post_fld(K, X, argmap, label='body'):
     return spec.Fld(acc('ex'), acc('ey'), acc('ez'), acc('eta_x'), acc('eta_y'), acc('eta_z'), acc('zeta'), *K.ih()), acc
 
 
+_REPLAYS = {}
+
+
 def replay_gs(kernel):
     def rp(d):
         from . import c03_concrete
         m = d.get('model', {}).get('_index_model', {})
         shape = tuple(max(3, min(5, int(m.get(k, 3)))) for k in ('nx', 'ny', 'nz'))
-        return ob.guarded(c03_concrete.check_kernel, kernel, shapes=[shape, (3, 4, 5)], seeds=(0, 1))
+        if (kernel, shape) not in _REPLAYS:      # the same concrete run serves every refuted obligation of this task
+            _REPLAYS[(kernel, shape)] = ob.guarded(c03_concrete.check_kernel, kernel, shapes=[shape, (3, 4, 5)], seeds=(0, 1))
+        return dict(_REPLAYS[(kernel, shape)])
     return rp
 
 
@@ -254,7 +259,7 @@ class SSAEx(sx.Ex):
         return super().write(a, idx, val, node)
 
 
-def task_solve_n(n):
+def task_solve_n(n, rows=None):
     col = ob.Collector(PROP, f'core.solve/n{n}')
     fn = col.function('core.solve')
     if [a.arg for a in fn.args.args] != ['amat', 'bvec']:
@@ -269,11 +274,14 @@ def task_solve_n(n):
     def Asym(i, j):
         lo, hi = min(i, j), max(i, j)
         return A0[hi + 5 * lo] if hi - lo <= 5 else ZERO
-    col.satisfiable('pivots_nonzero_hyps-sat', X.defs)
-    for i in range(n):
+    rows = list(range(n)) if rows is None else list(rows)
+    if 0 in rows:
+        col.satisfiable('pivots_nonzero_hyps-sat', X.defs)
+    for i in rows:
         goal = z3.Sum([Asym(i, j) * x[j] for j in range(n)]) == b0[i]
         col.lia(f'row{i}', X.defs, goal, sample=(i == 0))
-    col.canary_lia('canary/row0_wrong_rhs', X.defs, z3.Sum([Asym(0, j) * x[j] for j in range(n)]) == b0[0] + 1)
+    if 0 in rows:
+        col.canary_lia('canary/row0_wrong_rhs', X.defs, z3.Sum([Asym(0, j) * x[j] for j in range(n)]) == b0[0] + 1)
     return col.pack()
 
 
@@ -303,6 +311,11 @@ def tasks(tier):
          ('contracts.c03', 'task_solve_n', dict(n=6)),
          ('contracts.c03', 'task_solve_n', dict(n=1)),
          ('contracts.c03', 'task_concrete', {})]
+    # line of three cells (n = 5*2+1): every row its own task (about 13 s each)
+    t += [('contracts.c03', 'task_solve_n', dict(n=11, rows=[i])) for i in range(11)]
+    if tier != 'quick':
+        # lines of four and five cells
+        t += [('contracts.c03', 'task_solve_n', dict(n=n, rows=[i])) for n in (16, 21) for i in range(n)]
     from . import c03_lines, c03_dispatch
     t += c03_lines.tasks(tier)
     t += c03_dispatch.tasks(tier)
@@ -312,7 +325,7 @@ def tasks(tier):
 LEVEL = ('Deductive proof over the real source of the four smoothing kernels, blocks_to_amat and solve: master identity '
          '(assembled local/line system == C02 operator restricted to the relaxed block, for all values of the unknowns), '
          'write-back map, PEC frame, affinity, bounds -- for a symbolic grid, symbolic block position, both sweep '
-         'directions; core.solve end-to-end for n=6 (complete for the point smoother) and n=1.')
+         'directions; core.solve end-to-end (exact, all matrix entries symbolic) for n=6 (complete for the point smoother), n=1 and n=11 (lines of three cells).')
 ASSUMPTIONS = ['pivots of the LDL^T factorisation are non-zero (documented precondition of core.solve)',
                'lemma L-C03 (equational logic over the contracts): master identity + solve post (Asym x = b) => residual of the relaxed block is 0 afterwards; '
                'master identity + uniqueness of the solution => exact solutions are fixed points',
